@@ -1185,6 +1185,7 @@ func (p *parser) parseJob(id *String, n *yaml.Node) *Job {
 	// https://docs.github.com/en/actions/using-workflows/reusing-workflows#supported-keywords-for-jobs-that-call-a-reusable-workflow
 	var stepsOnlyKey *String
 	var callOnlyKey *String
+	var stepsOnlyKeys, callOnlyKeys []*String // every such key in order, not only the last one
 
 	for _, kv := range p.parseMapping(fmt.Sprintf("%q job", id.Value), n, false, true) {
 		k, v := kv.key, kv.val
@@ -1293,10 +1294,27 @@ func (p *parser) parseJob(id *String, n *yaml.Node) *Job {
 				"secrets",
 			})
 		}
+		if stepsOnlyKey == k {
+			stepsOnlyKeys = append(stepsOnlyKeys, k)
+		}
+		if callOnlyKey == k && kv.id != "uses" {
+			callOnlyKeys = append(callOnlyKeys, k)
+		}
 	}
 
 	if call.Uses != nil {
 		if stepsOnlyKey != nil {
+			for _, k := range stepsOnlyKeys {
+				if k == stepsOnlyKey {
+					continue // reported below
+				}
+				p.errorfAt(
+					k.Pos,
+					"when a reusable workflow is called with \"uses\", %q is not available. only following keys are allowed: \"name\", \"uses\", \"with\", \"secrets\", \"needs\", \"if\", and \"permissions\" in job %q",
+					k.Value,
+					id.Value,
+				)
+			}
 			p.errorfAt(
 				stepsOnlyKey.Pos,
 				"when a reusable workflow is called with \"uses\", %q is not available. only following keys are allowed: \"name\", \"uses\", \"with\", \"secrets\", \"needs\", \"if\", and \"permissions\" in job %q",
@@ -1315,6 +1333,17 @@ func (p *parser) parseJob(id *String, n *yaml.Node) *Job {
 			p.errorfAt(id.Pos, "\"runs-on\" section is missing in job %q", id.Value)
 		}
 		if callOnlyKey != nil {
+			for _, k := range callOnlyKeys {
+				if k == callOnlyKey {
+					continue // reported below
+				}
+				p.errorfAt(
+					k.Pos,
+					"%q is only available for a reusable workflow call with \"uses\" but \"uses\" is not found in job %q",
+					k.Value,
+					id.Value,
+				)
+			}
 			p.errorfAt(
 				callOnlyKey.Pos,
 				"%q is only available for a reusable workflow call with \"uses\" but \"uses\" is not found in job %q",
